@@ -51,7 +51,8 @@ Inductive kind :=
    value / as a constant, the NO_VALUE marker, a non-constant expression, a mapping expression; [st] is
    the class tag PythonType.is_specialization_of compares (None: never a specialization of anything) *)
 | KProbed (lazy : bool) (acc_raw acc_const : list tag) (null_raw null_const : bool)
-          (marker_ok defer acc_map : bool) (st : option tag).
+          (marker_ok defer acc_map : bool) (st : option tag)
+          (unwrap : bool).   (* does convert() hand over the value of a constant expression (true) or the expression object *)
 Inductive star := SNone | SArgs | SKwargs.   (* dictionary key: the name / '*' / '**' *)
 
 Record param := {
@@ -156,7 +157,7 @@ Fixpoint all_some {A} (l : list (option A)) : option (list A) :=
 
 Definition is_hidden (k : kind) : bool := match k with KHidden _ => true | _ => false end.
 Definition is_lazy (k : kind) : bool :=
-  match k with KLambda | KExpr | KMapRule => true | KProbed lz _ _ _ _ _ _ _ _ => lz | _ => false end.
+  match k with KLambda | KExpr | KMapRule => true | KProbed lz _ _ _ _ _ _ _ _ _ => lz | _ => false end.
 Definition arg_name (p : param) : Z := match palias p with Some a => a | None => pname p end.
 Definition is_sargs (p : param) : bool := match pstar p with SArgs => true | _ => false end.
 Definition is_skwargs (p : param) : bool := match pstar p with SKwargs => true | _ => false end.
@@ -207,15 +208,16 @@ Definition check (k : kind) (a : arg) : bool :=
       end
   | KConstant n => match a with AConst _ => true | ARaw VNull => n | _ => false end
   | KMapRule => match a with AMapC _ _ | AMapE _ _ _ => true | _ => false end
-  | KProbed _ accr accc nullr nullc mk defer accm _ =>
+  | KProbed _ accr accc nullr nullc mk defer accm _ _ =>
       match a with
       | ARaw VNull => nullr
       | ARaw (VObj c) => existsb (Nat.eqb c) accr
       | ARaw VMarker | ANoValue => mk
-      | ARaw (VOther _) => false
+      | ARaw (VOther _) => existsb (Nat.eqb 0) accr      (* class 0: a value that is an instance of `object` only *)
       | AConst VNull => nullc
       | AConst (VObj c) => existsb (Nat.eqb c) accc
-      | AConst _ => false
+      | AConst (VOther _) => existsb (Nat.eqb 0) accc
+      | AConst VMarker => false
       | AExpr _ _ => defer
       | AMapC _ _ | AMapE _ _ _ => accm
       end
@@ -235,9 +237,12 @@ Definition convert (k : kind) (a : arg) : bval :=
       end
   | KConstant _ => match a with AConst v => BVal v | _ => BVal VNull end
   | KMapRule => BVal (VOther (-1))       (* a utils.MappingRule object with lazily evaluated sides *)
-  | KProbed lz _ _ _ _ _ _ _ _ =>        (* what convert() makes of the value is not part of the model *)
+  | KProbed lz _ _ _ _ _ _ _ _ uw =>     (* what convert() makes of the value itself is not part of the model *)
       if lz then BExprObj a
-      else match a with AConst v | ARaw v => BVal v | ANoValue => BVal VMarker | _ => BExprObj a end
+      else match a with
+           | AConst v => if uw then BVal v else BExprObj a
+           | ARaw v => BVal v | ANoValue => BVal VMarker | _ => BExprObj a
+           end
   end.
 
 Definition checked (p : param) (a : arg) : option bval :=
@@ -478,7 +483,7 @@ Fixpoint eval_kw (lz : list bool) (kw : kwargs) : kwargs * list Z :=
 
 (* ---- runner._is_specialization_of ----------------------------------------- *)
 Definition spec_tag (k : kind) : option tag :=
-  match k with KTyped t _ => Some t | KProbed _ _ _ _ _ _ _ _ st => st | _ => None end.
+  match k with KTyped t _ => Some t | KProbed _ _ _ _ _ _ _ _ st _ => st | _ => None end.
 Definition type_spec (k1 k2 : kind) : bool :=
   match spec_tag k1, spec_tag k2 with Some a, Some b => sub a b | _, _ => false end.
 
